@@ -149,55 +149,84 @@ Proof.
   apply (CInv_ext s); [congruence|congruence|exact I].
 Qed.
 
-(* the clock times and the output are the same in both states *)
-Definition same_clk (s s' : st) : Prop :=
-  (forall ch, cts (clock_of s' ch) = cts (clock_of s ch) /\ lts (clock_of s' ch) = lts (clock_of s ch)) /\ out s' = out s.
-Lemma same_clk_refl s : same_clk s s. Proof. split; [intros ch; split; reflexivity|reflexivity]. Qed.
-Lemma same_clk_trans s1 s2 s3 : same_clk s1 s2 -> same_clk s2 s3 -> same_clk s1 s3.
-Proof. intros [A B] [C D]. split; [intros ch; destruct (A ch) as [A1 A2]; destruct (C ch) as [C1 C2]; split; congruence|congruence]. Qed.
-Lemma same_clk_ext s s' : clocks s' = clocks s -> out s' = out s -> same_clk s s'.
-Proof. intros Hc Ho. split; [intros ch; rewrite (clock_of_ext s s' ch Hc); split; reflexivity|exact Ho]. Qed.
-Lemma CInv_same_clk s s' : same_clk s s' -> CInv s -> CInv s'.
-Proof. intros [A B]. apply CInv_same; assumption. Qed.
-
-Lemma start_handler_clock s src tgt recs : same_clk s (start_handler s src tgt recs).
+(* ---------- how the clocks move ---------- *)
+(* [rel]: the output and the last-tick times stay, the channel times may rise; [adv]: the channel times do not fall *)
+Lemma CInv_adv s s' :
+  (forall ch, lts (clock_of s' ch) = lts (clock_of s ch) /\ cts (clock_of s ch) <= cts (clock_of s' ch)) -> out s' = out s -> CInv s -> CInv s'.
 Proof.
-  unfold start_handler. split; [|reflexivity]. intros ch.
-  set (ck := match alookup (clocks s) tgt with Some k => _ | None => _ end).
-  match goal with |- cts (clock_of ?s' ch) = _ /\ _ => rewrite (clock_of_ext (set_clock s tgt ck) s' ch eq_refl) end.
-  destruct (String.eqb_spec tgt ch) as [<-|Hne].
-  - rewrite clock_of_set. unfold ck, clock_of. destruct (alookup (clocks s) tgt); split; reflexivity.
-  - rewrite (clock_of_set_other _ _ _ _ Hne). split; reflexivity.
+  intros Hc Ho I ch. destruct (I ch) as [I1 [I2 I3]]. destruct (Hc ch) as [C1 C2]. unfold chan_inv. rewrite Ho, C1. split; [lia|]. split; assumption.
+Qed.
+Definition rel (s s' : st) : Prop :=
+  (forall ch, lts (clock_of s' ch) = lts (clock_of s ch) /\ cts (clock_of s ch) <= cts (clock_of s' ch)) /\ out s' = out s.
+Definition adv (s s' : st) : Prop := forall ch, cts (clock_of s ch) <= cts (clock_of s' ch).
+
+Lemma rel_refl s : rel s s. Proof. split; [intros ch; split; [reflexivity|lia]|reflexivity]. Qed.
+Lemma rel_trans a b c : rel a b -> rel b c -> rel a c.
+Proof. intros [H1 O1] [H2 O2]. split; [|congruence]. intros ch. destruct (H1 ch), (H2 ch). split; [congruence|lia]. Qed.
+Lemma rel_ext s s' : clocks s' = clocks s -> out s' = out s -> rel s s'.
+Proof. intros Ec Eo. split; [|exact Eo]. intros ch. rewrite (clock_of_ext s s' ch Ec). split; [reflexivity|lia]. Qed.
+Lemma rel_adv s s' : rel s s' -> adv s s'. Proof. intros [H _] ch. apply H. Qed.
+Lemma adv_refl s : adv s s. Proof. intros ch. lia. Qed.
+Lemma adv_trans a b c : adv a b -> adv b c -> adv a c.
+Proof. intros H1 H2 ch. specialize (H1 ch). specialize (H2 ch). lia. Qed.
+Lemma CInv_rel s s' : rel s s' -> CInv s -> CInv s'.
+Proof. intros [H O]. apply CInv_adv; assumption. Qed.
+
+Lemma rel_collect s ch t : t <> maxu -> rel s (set_clock s ch (collect (clock_of s ch) t)).
+Proof.
+  intros Ht. split; [|reflexivity]. intros ch'. destruct (String.eqb_spec ch ch') as [<-|N].
+  - rewrite clock_of_set. destruct (collect_spec (clock_of s ch) t Ht) as [C1 [C2 _]]. rewrite C1, C2. split; [reflexivity|lia].
+  - rewrite (clock_of_set_other s ch _ ch' N). split; [reflexivity|lia].
+Qed.
+(* a seek time of 2^64-1 stands for "no position": the clock is left alone *)
+Lemma collect_any c t : lts (collect c t) = lts c /\ cts c <= cts (collect c t).
+Proof.
+  destruct (N.eq_dec t maxu) as [->|Ht]; [unfold collect, maxu; cbn; split; [reflexivity|lia]|].
+  destruct (collect_spec c t Ht) as [C1 [C2 _]]. rewrite C1, C2. split; [reflexivity|lia].
+Qed.
+Lemma rel_set_raise s ch k : lts k = lts (clock_of s ch) -> cts (clock_of s ch) <= cts k -> rel s (set_clock s ch k).
+Proof.
+  intros L C. split; [|reflexivity]. intros ch'. destruct (String.eqb_spec ch ch') as [<-|N].
+  - rewrite clock_of_set. split; assumption.
+  - rewrite (clock_of_set_other s ch _ ch' N). split; [reflexivity|lia].
+Qed.
+Lemma rel_collect_any s ch t : rel s (set_clock s ch (collect (clock_of s ch) t)).
+Proof. destruct (collect_any (clock_of s ch) t) as [L C]. apply rel_set_raise; assumption. Qed.
+
+Lemma start_handler_rel s src tgt recs z : rel s (start_handler s src tgt recs z).
+Proof.
+  unfold start_handler. set (k := collect (clock_of s tgt) z). set (ck := {| cts := cts k; lts := lts k; gate := true |}).
+  destruct (collect_any (clock_of s tgt) z) as [L C]. fold k in L, C.
+  eapply rel_trans; [apply (rel_set_raise s tgt ck); [exact L|exact C]|]. apply rel_ext; reflexivity.
 Qed.
 
-Lemma add_shard_same_clk s c ref sh : same_clk s (add_shard s c ref sh).
+Lemma add_shard_rel s c ref sh : rel s (add_shard s c ref sh).
 Proof.
-  unfold add_shard. destruct (hlookup s _); [apply same_clk_ext; reflexivity|].
-  destruct (Manager.has_handler _ _); [apply same_clk_ext; reflexivity|].
-  destruct (alookup _ _); [|apply same_clk_ext; reflexivity].
-  eapply same_clk_trans; [|apply start_handler_clock]. apply same_clk_ext; reflexivity.
+  unfold add_shard. destruct (hlookup s _) as [h|].
+  - eapply rel_trans; [apply (rel_collect_any s (h_tgt h) (seek_of c (sh_spch sh)))|]. apply rel_ext; reflexivity.
+  - destruct (Manager.has_handler _ _); [apply rel_ext; reflexivity|].
+    destruct (alookup _ _); [|apply rel_ext; reflexivity].
+    eapply rel_trans; [|apply start_handler_rel]. apply rel_ext; reflexivity.
 Qed.
-Lemma add_shard_clock s c ref sh : 
-  (forall ch, cts (clock_of (add_shard s c ref sh) ch) = cts (clock_of s ch) /\ lts (clock_of (add_shard s c ref sh) ch) = lts (clock_of s ch))
-  /\ out (add_shard s c ref sh) = out s.
-Proof. exact (add_shard_same_clk s c ref sh). Qed.
+Lemma add_shard_out s c ref sh : out (add_shard s c ref sh) = out s.
+Proof. apply add_shard_rel. Qed.
 
-Lemma fold_same_clk {A} (f : st -> A -> st) : (forall s x, same_clk s (f s x)) -> forall l s, same_clk s (fold_left f l s).
-Proof. intros H l. induction l as [|x l IH]; intros s; cbn [fold_left]; [apply same_clk_refl|]. eapply same_clk_trans; [apply H|apply IH]. Qed.
+Lemma fold_rel {A} (f : st -> A -> st) : (forall s x, rel s (f s x)) -> forall l s, rel s (fold_left f l s).
+Proof. intros H l. induction l as [|x l IH]; intros s; cbn [fold_left]; [apply rel_refl|]. eapply rel_trans; [apply H|apply IH]. Qed.
 
-Lemma materialise_same_clk s : same_clk s (materialise s).
+Lemma materialise_rel s : rel s (materialise s).
 Proof.
-  unfold materialise. apply fold_same_clk. intros s0 k. destruct (alookup _ _); [|apply same_clk_refl].
-  destruct (Manager.find_handler _ _); [|apply same_clk_refl].
-  eapply same_clk_trans; [apply start_handler_clock|]. apply same_clk_ext; reflexivity.
+  unfold materialise. apply fold_rel. intros s0 k0. destruct (alookup _ _); [|apply rel_refl].
+  destruct (Manager.find_handler _ _) as [mh|]; [|apply rel_refl].
+  eapply rel_trans; [apply start_handler_rel|].
+  eapply rel_trans; [apply (fold_rel (fun s w => set_clock s (Manager.h_tgt mh) (collect (clock_of s (Manager.h_tgt mh)) (ws_seek w)))); intros sx wx; apply rel_collect_any|].
+  apply rel_ext; reflexivity.
 Qed.
-Lemma settle_same_clk s : same_clk s (settle s).
-Proof. unfold settle. eapply same_clk_trans; [|apply materialise_same_clk]. apply same_clk_ext; reflexivity. Qed.
+Lemma settle_rel s : rel s (settle s).
+Proof. unfold settle. eapply rel_trans; [|apply materialise_rel]. apply rel_ext; reflexivity. Qed.
 
-Lemma CInv_add_shards c ref : forall shards s, CInv s -> CInv (fold_left (fun s sh => add_shard s c ref sh) shards s).
-Proof.
-  intros shards s. apply CInv_same_clk. apply fold_same_clk. intros s0 sh. apply add_shard_same_clk.
-Qed.
+Lemma start_coll_rel c ref shards s : rel s (settle (fold_left (fun s sh => add_shard s c ref sh) shards s)).
+Proof. eapply rel_trans; [apply (fold_rel (fun s sh => add_shard s c ref sh)); intros s0 sh; apply add_shard_rel|apply settle_rel]. Qed.
 
 Definition feed_safe (s : st) (l : label) : Prop :=
   match l with
@@ -225,7 +254,7 @@ Proof.
   intros I Hsafe. unfold step. apply CInv_fire. destruct l as [c|c pid pname th|c cname spch p answers|cs|c spchs|ns nt].
   - (* StartColl *)
     destruct (zmem _ _); [exact I|]. destruct (zlookup _ _); [exact I|]. destruct (pairing c) as [shards|]; [|exact I].
-    apply (CInv_same_clk _ _ (settle_same_clk _)). apply CInv_add_shards. apply (CInv_ext s); [reflexivity|reflexivity|exact I].
+    apply (CInv_rel _ _ (start_coll_rel _ _ _ _)). apply (CInv_ext s); [reflexivity|reflexivity|exact I].
   - (* AddPart *)
     apply (CInv_ext s); [| |exact I]; repeat dm; reflexivity.
   - (* Feed *)
